@@ -180,8 +180,11 @@ static void access(uintptr_t addr, int size, int is_write, int is_atomic, const 
 	}
 }
 
-/* acquire+release on the atomic variable at addr (the __sync builtins json-c uses are full barriers) */
-static void atomic_sync(uintptr_t addr)
+/* Synchronisation through the atomic variable at addr, honouring the C11 memory order the code asked for
+ * (0 relaxed, 1 consume, 2 acquire, 3 release, 4 acq_rel, 5 seq_cst; the __sync builtins json-c uses arrive as seq_cst).
+ * A release-only decrement followed by free(), or relaxed counters, therefore do NOT order the last accesses of other
+ * owners before the destruction - exactly what a weakly ordered CPU would allow. */
+static void atomic_sync(uintptr_t addr, int mo, int is_load_only, int is_store_only)
 {
 	int t = t_tid;
 	if (t < 0)
@@ -189,13 +192,20 @@ static void atomic_sync(uintptr_t addr)
 	struct cell *c = cell_for((addr & ~(uintptr_t)3) >> 2, 1);
 	if (!c)
 		return;
-	if (c->has_avc)
+	int acquire = (mo == 1 || mo == 2 || mo == 4 || mo == 5) && !is_store_only;
+	int release = (mo == 3 || mo == 4 || mo == 5) && !is_load_only;
+	if (acquire && c->has_avc)
 		for (int u = 0; u <= g_nthreads; u++)
 			if (c->avc[u] > g_vc[t][u])
 				g_vc[t][u] = c->avc[u];
-	for (int u = 0; u <= g_nthreads; u++)
-		c->avc[u] = g_vc[t][u];
-	c->has_avc = 1;
+	if (release)
+	{
+		/* release sequence: a later release on the same variable continues the earlier ones (RMW chain) */
+		for (int u = 0; u <= g_nthreads; u++)
+			if (g_vc[t][u] > c->avc[u] || !c->has_avc)
+				c->avc[u] = c->has_avc && c->avc[u] > g_vc[t][u] ? c->avc[u] : g_vc[t][u];
+		c->has_avc = 1;
+	}
 	g_vc[t][t]++;
 }
 
@@ -433,6 +443,9 @@ int simthr_on_free(void *p, size_t n)
 		}
 	}
 	size_t lim = n > 512 ? 512 : n;
+	/* releasing a block is a write to all of it: it must be ordered after every other thread's last access */
+	if (t_tid >= 0)
+		access((uintptr_t)p, (int)(lim > 256 ? 256 : lim), 1, 0, __builtin_return_address(0));
 	for (uintptr_t x = (uintptr_t)p & ~(uintptr_t)3; x < (uintptr_t)p + lim; x += 4)
 	{
 		struct cell *c = cell_for(x >> 2, 1);
@@ -491,16 +504,17 @@ void __tsan_read1_pc(void *a, void *pc) { plain(a, 1, 0, pc); }
 void __tsan_write1_pc(void *a, void *pc) { plain(a, 1, 1, pc); }
 
 /* atomics: yield point, then the operation executes atomically (only one thread runs) */
-static inline void atomic_pre(volatile void *a, int size, const void *pc)
+static inline void atomic_pre_mo(volatile void *a, int size, const void *pc, int mo, int load_only, int store_only)
 {
 	if (!g_active || t_tid < 0)
 		return;
 	g_stats.atomics++;
 	if (t_tid > 0)
 		yield_point(g_cfg.switch_permille_atomic);
-	access((uintptr_t)a, size, 1, 1, pc);
-	atomic_sync((uintptr_t)a);
+	access((uintptr_t)a, size, !load_only, 1, pc);
+	atomic_sync((uintptr_t)a, mo, load_only, store_only);
 }
+#define atomic_pre(a, size, pc) atomic_pre_mo((a), (size), (pc), mo, 0, 0)
 #define DEF_ATOMICS(bits, type)                                                                                          \
 	type __tsan_atomic##bits##_fetch_add(volatile type *a, type v, int mo)                                             \
 	{                                                                                                                  \
@@ -534,14 +548,12 @@ static inline void atomic_pre(volatile void *a, int size, const void *pc)
 	}                                                                                                                  \
 	type __tsan_atomic##bits##_load(const volatile type *a, int mo)                                                    \
 	{                                                                                                                  \
-		(void)mo;                                                                                                      \
-		atomic_pre((volatile void *)a, bits / 8, PC);                                                                  \
+		atomic_pre_mo((volatile void *)a, bits / 8, PC, mo, 1, 0);                                                     \
 		return __atomic_load_n(a, __ATOMIC_SEQ_CST);                                                                   \
 	}                                                                                                                  \
 	void __tsan_atomic##bits##_store(volatile type *a, type v, int mo)                                                 \
 	{                                                                                                                  \
-		(void)mo;                                                                                                      \
-		atomic_pre(a, bits / 8, PC);                                                                                   \
+		atomic_pre_mo(a, bits / 8, PC, mo, 0, 1);                                                                      \
 		__atomic_store_n(a, v, __ATOMIC_SEQ_CST);                                                                      \
 	}                                                                                                                  \
 	type __tsan_atomic##bits##_compare_exchange_val(volatile type *a, type c, type v, int mo, int fmo)                 \
